@@ -14,7 +14,7 @@ Reading of the source
   `given` argument (which optional parameters are supplied);
 * `if cond: raise ...` guards and `assert` statements are dropped (the models state these as preconditions),
   unless the raise is the only way out of an else-branch, in which case the branch yields `default_on_raise`;
-* `int(e)` truncates toward zero, `math.ceil`/`np.ceil` and `//` are exact on rationals, `round` is not accepted;
+* `int(e)` truncates toward zero, `math.ceil`/`np.ceil` and `//` are exact on rationals; one-argument `round` is Python's round-half-to-even (fragment / piece readers below; not reachable from `emit`);
 * float literals are the exact doubles;
 * (round 4, C09) `math.log(x, 2)` / `math.log2(x)` / `np.log2(x)` of a VARIABLE `x` (or its elementwise selection
   `x[mask]`) becomes the parameter `x_log2` -- the counterpart of the `2 ** x` rule: the logarithm of the value `x`
